@@ -44,15 +44,34 @@ func init() {
 				switch k := rapid.IntRange(0, 99).Draw(rt, "kind"); {
 				case k < 55:
 					sc.Kind = "cli-replica"
-					_, pc := gen.DrawProgram(rt, env, gen.DrawOpts{FreshCorpus: true}, rejectCounter(rec))
+					var pc *gen.ProgCase
+					if rapid.IntRange(0, 9).Draw(rt, "wide") < 4 {
+						pc, _ = drawWideProgram(rt, env, rec)
+					}
+					if pc == nil {
+						_, pc = gen.DrawProgram(rt, env, gen.DrawOpts{FreshCorpus: true}, rejectCounter(rec))
+					}
 					sc.Progs = []gen.ProgCase{*pc}
 					sc.K = pickInt(rt, "k", []int{1, 2, 3, 4, 8, 16, 64, runtime.GOMAXPROCS(0)})
 					sc.Order = rapid.Permutation(seq(len(all.Checkers))).Draw(rt, "order")
 				case k < 90:
 					sc.Kind = "analyzer-parallel"
+					// passes over the same source (separately loaded) put the most pressure on anything the
+					// checker instances of different passes share; independent sources vary the mix
 					n := rapid.IntRange(2, 6).Draw(rt, "npasses")
+					same := rapid.IntRange(0, 3).Draw(rt, "sameSource") // 0,1: all the same; 2: every other; 3: independent
 					for i := 0; i < n; i++ {
-						_, pc := gen.DrawProgram(rt, env, gen.DrawOpts{FreshCorpus: true, MaxMuts: 1}, rejectCounter(rec))
+						if i > 0 && (same <= 1 || (same == 2 && i%2 == 0)) {
+							sc.Progs = append(sc.Progs, sc.Progs[0])
+							continue
+						}
+						var pc *gen.ProgCase
+						if rapid.IntRange(0, 9).Draw(rt, "wide") < 6 {
+							pc, _ = drawWideProgram(rt, env, rec)
+						}
+						if pc == nil {
+							_, pc = gen.DrawProgram(rt, env, gen.DrawOpts{FreshCorpus: true, MaxMuts: 1}, rejectCounter(rec))
+						}
 						sc.Progs = append(sc.Progs, *pc)
 					}
 				default:
@@ -78,6 +97,28 @@ func init() {
 			}
 		},
 	})
+}
+
+// drawWideProgram renders one file with 24-40 kernels of consecutive checker families (start drawn):
+// most checkers have work to do at the same time, so whatever their instances share is under
+// concurrent use in every such case, not only when two drawn programs happen to meet.
+func drawWideProgram(rt *rapid.T, env *gen.Env, rec *core.Recorder) (*gen.ProgCase, bool) {
+	n := rapid.IntRange(24, 40).Draw(rt, "wideKernels")
+	start := rapid.IntRange(0, len(gen.Kernels)-1).Draw(rt, "wideStart")
+	ks := make([]gen.Kernel, 0, n)
+	for i := 0; i < n; i++ {
+		ks = append(ks, gen.Kernels[(start+i)%len(gen.Kernels)])
+	}
+	srcs := gen.KernelFileFor(rt, ks, false)
+	p := env.Load(srcs)
+	if !p.OK() {
+		rec.Reject()
+		rec.Count("rejected:wide-kernels")
+		rec.Sample("rejected-by-typechecker", 2, map[string]string{"mutator": "wide-kernels", "why": p.ErrSummary()})
+		return nil, false
+	}
+	rec.Count("wide-kernel-program")
+	return &gen.ProgCase{Origin: "kernels", Files: srcs}, true
 }
 
 func checkC04(t core.TB, rec *core.Recorder, env *gen.Env, all *core.Set, sc *schedCase) {
